@@ -413,7 +413,8 @@ pub fn trace_cmd_begin(cmd: &crate::vicmd::ViCmd, buffer: &str, cursor: usize) {
 		t.push(json!({
 			"verb": verb, "vcount": cmd.verb.as_ref().map(|v| v.0), "motion": motion, "mcount": cmd.motion.as_ref().map(|m| m.0),
 			"reg": format!("{:?}", cmd.register), "flags": format!("{:?}", cmd.flags),
-			"continues_insert": cmd.verb.as_ref().is_some_and(|v| matches!(v.1, crate::vicmd::Verb::InsertChar(_) | crate::vicmd::Verb::ReplaceChar(_))),
+			"continues_insert": cmd.verb.as_ref().is_some_and(|v| matches!(v.1, crate::vicmd::Verb::InsertChar(_) | crate::vicmd::Verb::ReplaceChar(_)))
+				|| cmd.flags.contains(crate::vicmd::CmdFlags::INSERT_SESSION),
 			"opens_insert": cmd.verb.as_ref().is_some_and(|v| matches!(v.1, crate::vicmd::Verb::Change | crate::vicmd::Verb::InsertModeLineBreak(_))),
 			"undo_op": cmd.is_undo_op(), "is_edit": cmd.verb.as_ref().is_some_and(|v| v.1.is_edit()),
 			"repeatable": cmd.is_repeatable(),
